@@ -11,6 +11,7 @@ Oracle: no run raises; every run ends with cost c0 and script S0; a resumed edit
 lists; rendering leaves cost and script unchanged.
 """
 import io
+import os
 
 from .. import core, sched
 from ..core import EventLog, Streams, Violation
@@ -27,15 +28,44 @@ MACROS = ["diff_quiet", "diff_clock", "contexts", "contexts_quiet", "edited_cost
 
 
 class Sink(io.StringIO):
-    """A private in-memory output stream for renders, like the StringIO a library user would pass (no file
-    descriptor: fileno() raises io.UnsupportedOperation, the raw write path); isatty() is settable."""
+    """A private in-memory output stream for renders.  tty=False: like the StringIO a library user would pass (no file
+    descriptor: fileno() raises io.UnsupportedOperation, the raw write path).  tty=True: a stream that says it is a
+    terminal IS one - its descriptor is the slave side of a real pseudo-terminal (80 x 24), created on demand, so that
+    code which trusts "isatty() implies fileno()" (os.get_terminal_size, termios) meets what a real terminal offers
+    (reviewer variant C05 r4v1).  What is written through the stream object is collected in memory either way."""
 
     def __init__(self, tty):
         super().__init__()
         self.tty = tty
+        self._pty = None
 
     def isatty(self):
         return self.tty
+
+    def fileno(self):
+        if not self.tty:
+            raise io.UnsupportedOperation("fileno")
+        if self._pty is None:
+            import fcntl
+            import struct
+            import termios
+            master, slave = os.openpty()
+            try:
+                fcntl.ioctl(slave, termios.TIOCSWINSZ, struct.pack("HHHH", 24, 80, 0, 0))
+                os.set_blocking(master, False)
+            except OSError:
+                pass
+            self._pty = (master, slave)
+        return self._pty[1]
+
+    def release(self):
+        if self._pty is not None:
+            for fd in self._pty:
+                try:
+                    os.close(fd)
+                except OSError:
+                    pass
+            self._pty = None
 
     @property
     def parts(self):
@@ -74,10 +104,13 @@ def hygiene():
 
 def render(family, ret, ansi, tty, quiet):
     sink = Sink(tty)
-    p = gprinter.Printer(out_stream=sink, ansi_color=ansi, quiet=quiet)
-    with p:
-        formatter_for(family).print(p, ret)
-    return "".join(sink.parts)
+    try:
+        p = gprinter.Printer(out_stream=sink, ansi_color=ansi, quiet=quiet)
+        with p:
+            formatter_for(family).print(p, ret)
+        return "".join(sink.parts)
+    finally:
+        sink.release()
 
 
 class C05:
